@@ -127,6 +127,11 @@ DuringDelete ==
 \* while a write is half-applied (cache written, WAL not yet): the batch is visible, nothing else changed
 DuringWrite == (wj.pc = "cached" /\ dj.pc = "idle") => Visible = ApplyPts(model, wj.pts)
 NoResurrection == \A p \in dead : Visible[p[1]][p[2]] # p[3]     \* C03
+\* What the model will be once the half-applied write / delete (if any) are acknowledged. Only issuing a new write or
+\* delete changes it (FinStable, an action property): so a history that stops in the middle of some jobs can be judged
+\* after letting the real jobs run to their end -- the reads must then equal FinModel of its last state.
+FinModel == LET m1 == IF wj.pc = "idle" THEN model ELSE ApplyPts(model, wj.pts)
+            IN IF dj.pc = "idle" THEN m1 ELSE Filter(m1, dj.k, dj.lo, dj.hi)
 
 \* what the replay driver compares reads with after each step: the model, and what is half-applied (if anything)
 PtsOf(m) == [k \in Keys |-> ReadFrom(m, k, MinT, MaxT, TRUE)]
@@ -160,6 +165,10 @@ WriteAllowed(b) == /\ nw + Len(b) <= MaxPoints
                    /\ wj.pc = "idle"
                    /\ \A i \in 1..Len(b) : ~(dj.pc # "idle" /\ b[i][1] = dj.k /\ InRange(b[i][2], dj.lo, dj.hi))
 MaxGen == IF files = <<>> THEN 0 ELSE files[Len(files)].gen
+\* some series of file f has tombstoned and live points (only then does the compactor see tombstone ranges: a series
+\* whose points are all tombstoned is removed from the file's in-memory index)
+PartialTomb(f) == \E k \in Keys : /\ \E t \in Times : <<k, t>> \in f.tomb
+                                  /\ \E t \in Times : f.data[k][t] # None /\ <<k, t>> \notin f.tomb
 Log(rec) == hist' = Append(hist, rec)
 CanStep == Len(hist) < MaxOps
 
@@ -257,7 +266,7 @@ CompactMerge ==
   /\ CanStep /\ cj.pc = "planned"
   /\ dj.pc = "idle"                                   \* after Compactor.DisableCompactions only CompactAbort is possible
   /\ cj' = [cj EXCEPT !.pc = "merged", !.out = FilesVisible(files, cj.lo, cj.hi)]
-  /\ Log([a |-> "CompactMerge", exp |-> Exp(model, wj, dj)])
+  /\ Log([a |-> "CompactMerge", ptomb |-> (\E i \in cj.lo..cj.hi : PartialTomb(files[i])), exp |-> Exp(model, wj, dj)])
   /\ UNCHANGED <<hot, snap, sj, files, nextGen, wal, dj, wj, model, written, dead, nw, ns, nc, nd, nr>>
 
 CompactReplace ==
@@ -296,21 +305,22 @@ DeleteTombstone ==
   /\ files' = [i \in 1..Len(files) |->
                  [files[i] EXCEPT !.tomb = @ \cup {<<dj.k, t>> : t \in {u \in Times : InRange(u, dj.lo, dj.hi) /\ files[i].data[dj.k][u] # None}}]]
   /\ dj' = [dj EXCEPT !.pc = "tombstoned"]
-  /\ Log([a |-> "DeleteTombstone", exp |-> Exp(model, wj, dj)])
+  /\ Log([a |-> "DeleteTombstone", n |-> Cardinality({<<i, t>> \in (1..Len(files)) \X Times : InRange(t, dj.lo, dj.hi) /\ FileVisible(files[i])[dj.k][t] # None}),
+          exp |-> Exp(model, wj, dj)])
   /\ UNCHANGED <<hot, snap, sj, nextGen, wal, cj, wj, model, written, dead, nw, ns, nc, nd, nr>>
 
 DeleteCache ==
   /\ CanStep /\ dj.pc = "tombstoned"
   /\ hot' = Filter(hot, dj.k, dj.lo, dj.hi)
   /\ dj' = [dj EXCEPT !.pc = "cached", !.wkeys = IF HasKey(hot, dj.k) THEN {dj.k} ELSE {}]
-  /\ Log([a |-> "DeleteCache", exp |-> Exp(model, wj, dj)])
+  /\ Log([a |-> "DeleteCache", n |-> Cardinality({t \in Times : InRange(t, dj.lo, dj.hi) /\ hot[dj.k][t] # None}), exp |-> Exp(model, wj, dj)])
   /\ UNCHANGED <<snap, sj, files, nextGen, wal, cj, wj, model, written, dead, nw, ns, nc, nd, nr>>
 
 DeleteWAL ==
   /\ CanStep /\ dj.pc = "cached"
   /\ wal' = IF dj.wkeys = {} THEN wal ELSE AppendEntry(wal, DEntry(dj.wkeys, dj.lo, dj.hi))
   /\ dj' = [dj EXCEPT !.pc = "logged"]
-  /\ Log([a |-> "DeleteWAL", exp |-> Exp(model, wj, dj)])
+  /\ Log([a |-> "DeleteWAL", logged |-> (dj.wkeys # {}), exp |-> Exp(model, wj, dj)])
   /\ UNCHANGED <<hot, snap, sj, files, nextGen, cj, wj, model, written, dead, nw, ns, nc, nd, nr>>
 
 DeleteAck ==
@@ -343,6 +353,8 @@ Next == \/ \E b \in Batches : Write(b)
         \/ Reopen
 
 Spec == Init /\ [][Next]_vars
+
+FinStable == [][nw' # nw \/ nd' # nd \/ FinModel' = FinModel]_vars
 
 \* ------------------------------------------------------------------ implementation-layer invariants
 TypeOK == /\ sj.pc \in {"idle", "snapped", "written", "replaced", "cleared"}
